@@ -42,6 +42,66 @@ type crashCase struct {
 	Prefix  *string             `json:"prefix,omitempty"`
 	Paths   []string            `json:"paths,omitempty"` // request paths to issue (default: one derived from the first pattern)
 	Comp    string              `json:"comp,omitempty"` // nil|empty
+	// Build: the configuration is the LAST product of a chain of NewConfig calls; every public construction path:
+	// each With* option in any order, WithConfigCopy of an EARLIER product combined with other routes / address /
+	// timeouts, copies of copies, nil arguments.  Where = construct (Run with the last product), reload (Run with a
+	// benign configuration, Reload delivers the last product) or chain (Run with the first product, then one Reload per
+	// later product, in order).
+	Build []buildStep `json:"build,omitempty"`
+	Via   string      `json:"via,omitempty"` // "config": the runner gets the product through WithConfig instead of a callback
+}
+
+// optSpec is one functional option of NewConfig, in the order given.
+type optSpec struct {
+	K   string `json:"k"`             // drain|read|write|idle|copy|copynil|creator|creatornil|ctx|ctxnil
+	V   int64  `json:"v,omitempty"`   // the duration (ns) of a timeout option
+	Ref int    `json:"ref,omitempty"` // copy: index of the earlier product handed to WithConfigCopy
+}
+
+type buildStep struct {
+	Addr   string    `json:"addr"` // "free" | "same" (the previous product's address) | a literal
+	Routes []rt      `json:"routes"`
+	Opts   []optSpec `json:"opts,omitempty"`
+}
+
+func (o optSpec) enc() string {
+	switch o.K {
+	case "drain":
+		return fmt.Sprintf("d%d", o.V)
+	case "read":
+		return fmt.Sprintf("r%d", o.V)
+	case "write":
+		return fmt.Sprintf("w%d", o.V)
+	case "idle":
+		return fmt.Sprintf("i%d", o.V)
+	case "copy":
+		return fmt.Sprintf("c%d", o.Ref)
+	}
+	return "n" // options that touch no modelled field (incl. every nil argument)
+}
+
+func encRoutes(rs []rt) string {
+	var out []string
+	for _, r := range rs {
+		out = append(out, hx(r.Name)+":"+hx(r.Path))
+	}
+	return strings.Join(out, ",")
+}
+
+// decisive returns the step whose route list decides the acceptance of the whole chain: the first one the
+// constructor must refuse (empty list, or patterns the ServeMux oracle rejects), else the last.
+func (c crashCase) decisive() (step int, ok bool, msg string) {
+	for i, st := range c.Build {
+		var ps []string
+		for _, r := range st.Routes {
+			ps = append(ps, r.Path)
+		}
+		ok, msg := muxOracle(ps)
+		if !ok || len(st.Routes) == 0 {
+			return i, ok, msg
+		}
+	}
+	return len(c.Build) - 1, true, ""
 }
 
 type crashResult struct {
@@ -195,6 +255,122 @@ func wildcardPaths(prefix string) []string {
 	return ps
 }
 
+var (
+	goodA = []rt{{"a", "/x"}}
+	goodB = []rt{{"a", "/x"}, {"b", "/y/{id}"}}
+	goodC = []rt{{"h", "/health"}, {"i", "GET /items/{id}"}}
+	badSets = [][]rt{
+		{{"h", "/health"}, {"i", "GET /items/{id}"}, {"j", "GET /items/{name}"}}, // equivalent wildcards
+		{{"a", "/x"}, {"b", "/x"}},      // duplicate path
+		{{"a", "/x"}, {"b", "/x/{y"}},   // malformed pattern
+		{{"a", "no-slash"}},             // malformed pattern
+		{{"a", "/x/"}, {"b", "/x/{p...}"}},
+	}
+)
+
+// buildCases: every public construction path of a *Config, each product driven through Run and Reload.
+func buildCases() []crashCase {
+	var cs []crashCase
+	add := func(steps ...buildStep) {
+		for _, w := range []string{"construct", "reload", "chain"} {
+			if w == "chain" && len(steps) < 2 {
+				continue
+			}
+			cs = append(cs, crashCase{Kind: "build", Where: w, Addr: "free", Build: steps})
+		}
+	}
+	d := func(ms int64) optSpec { return optSpec{K: "drain", V: ms * 1e6} }
+	base := func(rs []rt, opts ...optSpec) buildStep {
+		return buildStep{Addr: "free", Routes: rs, Opts: append([]optSpec{d(800)}, opts...)}
+	}
+	cp := func(ref int) optSpec { return optSpec{K: "copy", Ref: ref} }
+	// a valid base, then "same settings, other routes": valid and refused-by-ServeMux route sets, the copy first or
+	// last among the options, the same and another address
+	for _, rs := range append([][]rt{goodB, goodC}, badSets...) {
+		for _, a := range []string{"same", "free"} {
+			add(base(goodA), buildStep{Addr: a, Routes: rs, Opts: []optSpec{cp(0)}})
+		}
+		add(base(goodA), buildStep{Addr: "same", Routes: rs, Opts: []optSpec{{K: "read", V: 2e9}, cp(0), {K: "idle", V: 3e9}}})
+		add(base(goodA), buildStep{Addr: "free", Routes: rs, Opts: []optSpec{cp(0), d(500), {K: "ctx"}, {K: "creator"}}})
+	}
+	// chains of copies: the flag-like state of a product two copies away
+	for _, rs := range append([][]rt{goodC}, badSets[:3]...) {
+		add(base(goodA), buildStep{Addr: "same", Routes: goodB, Opts: []optSpec{cp(0)}},
+			buildStep{Addr: "same", Routes: rs, Opts: []optSpec{cp(1)}})
+		add(base(goodA), buildStep{Addr: "free", Routes: goodB, Opts: []optSpec{cp(0), {K: "write", V: 0}}},
+			buildStep{Addr: "free", Routes: rs, Opts: []optSpec{cp(0), cp(1)}})
+	}
+	// the same routes again through a copy (boot() does exactly this), other timeouts, zero timeouts copied along
+	add(base(goodB), buildStep{Addr: "same", Routes: goodB, Opts: []optSpec{cp(0)}})
+	add(base(goodB, optSpec{K: "read", V: 0}, optSpec{K: "write", V: 0}, optSpec{K: "idle", V: 0}),
+		buildStep{Addr: "free", Routes: goodA, Opts: []optSpec{cp(0)}})
+	add(base(goodB), buildStep{Addr: "same", Routes: goodB, Opts: []optSpec{cp(0), d(0)}})
+	add(base(goodB), buildStep{Addr: "same", Routes: goodA, Opts: []optSpec{d(-1), cp(0)}})
+	// nil arguments of every option that takes a reference; options only
+	add(buildStep{Addr: "free", Routes: goodA, Opts: []optSpec{d(800), {K: "copynil"}, {K: "creatornil"}, {K: "ctxnil"}}})
+	add(buildStep{Addr: "free", Routes: badSets[1], Opts: []optSpec{{K: "copynil"}, {K: "creator"}}})
+	add(buildStep{Addr: "free", Routes: goodC, Opts: []optSpec{{K: "creator"}, {K: "ctx"}, d(700), {K: "read", V: 1}, {K: "write", V: 1 << 62}, {K: "idle", V: -5}}})
+	// a base the constructor must refuse (nothing may be built on it), an empty route list with a copy
+	add(base(badSets[0]), buildStep{Addr: "same", Routes: goodA, Opts: []optSpec{cp(0)}})
+	add(base(goodA), buildStep{Addr: "same", Routes: nil, Opts: []optSpec{cp(0)}})
+	// the product handed to the runner through WithConfig (static configuration)
+	for _, rs := range [][]rt{goodB, badSets[0], badSets[2]} {
+		cs = append(cs, crashCase{Kind: "build", Where: "construct", Addr: "free", Via: "config",
+			Build: []buildStep{base(goodA), {Addr: "same", Routes: rs, Opts: []optSpec{cp(0)}}}})
+	}
+	return cs
+}
+
+func randomBuildCases(r *prng.R, n int) []crashCase {
+	var cs []crashCase
+	names := []string{"a", "b", "c", "a b", "é"}
+	okPool := []string{"/x", "/y", "/x/", "/x/{id}", "/files/{p...}", "/{$}", "GET /x", "POST /x", "example.com/x", "/z/{a}/{b}"}
+	durs := []int64{0, -1, 1, 5e8, 2e9, 1 << 62}
+	for i := 0; i < n; i++ {
+		k := 1 + r.Intn(3)
+		var steps []buildStep
+		for j := 0; j < k; j++ {
+			last := j == k-1
+			var rs []rt
+			m := 1 + r.Intn(3)
+			for x := 0; x < m; x++ {
+				pool := okPool
+				if last && r.Intn(3) > 0 {
+					pool = routePool // the last product also draws from the malformed and conflicting patterns
+				}
+				rs = append(rs, rt{prng.Pick(r, names), prng.Pick(r, pool)})
+			}
+			st := buildStep{Addr: prng.Pick(r, []string{"free", "same"}), Routes: rs}
+			no := r.Intn(5)
+			for x := 0; x < no; x++ {
+				switch q := r.Intn(10); {
+				case q < 4 && j > 0:
+					st.Opts = append(st.Opts, optSpec{K: "copy", Ref: r.Intn(j)})
+				case q < 8:
+					v := prng.Pick(r, durs)
+					kk := prng.Pick(r, []string{"drain", "read", "write", "idle"})
+					if kk == "drain" && !last && v > 1e9 {
+						v = 5e8
+					}
+					st.Opts = append(st.Opts, optSpec{K: kk, V: v})
+				default:
+					st.Opts = append(st.Opts, optSpec{K: prng.Pick(r, []string{"copynil", "creator", "creatornil", "ctx", "ctxnil"})})
+				}
+			}
+			if j > 0 && r.Intn(2) == 0 {
+				st.Opts = append(st.Opts, optSpec{K: "copy", Ref: r.Intn(j)})
+			}
+			steps = append(steps, st)
+		}
+		w := prng.Pick(r, []string{"construct", "reload", "chain"})
+		if w == "chain" && k < 2 {
+			w = "construct"
+		}
+		cs = append(cs, crashCase{Kind: "build", Where: w, Addr: "free", Build: steps})
+	}
+	return cs
+}
+
 func randomRouteCases(r *prng.R, n int) []crashCase {
 	var cs []crashCase
 	names := []string{"a", "b", "c", "a b", "é"}
@@ -235,6 +411,7 @@ func runCrash() {
 		cases = []crashCase{one.Case}
 	} else {
 		cases = append(routeCases(), otherCases()...)
+		cases = append(cases, buildCases()...)
 		if *mode == "quick" {
 			// keep every route case, thin the slow address cases (each costs the 5 s probe timeout)
 			var thin []crashCase
@@ -251,6 +428,7 @@ func runCrash() {
 			cases = thin
 		}
 		cases = append(cases, randomRouteCases(prng.New(*seed), *count)...)
+		cases = append(cases, randomBuildCases(prng.New(*seed+7919), *count)...)
 	}
 	for i := range cases {
 		if cases[i].ID == "" {
@@ -274,7 +452,14 @@ func runCrash() {
 			defer wg.Done()
 			defer func() { <-sem }()
 			res := crashResult{Case: c, OracleOK: true, Class: "none"}
-			if len(c.Routes) > 0 {
+			modelRoutes := c.Routes
+			if len(c.Build) > 0 {
+				// the routes that decide the chain's acceptance are what the model is asked about
+				var st int
+				st, res.OracleOK, res.Panic = c.decisive()
+				res.Class = panicClass(res.Panic)
+				modelRoutes = c.Build[st].Routes
+			} else if len(c.Routes) > 0 {
 				var ps []string
 				for _, r := range c.Routes {
 					ps = append(ps, r.Path)
@@ -320,8 +505,27 @@ func runCrash() {
 				}
 			}
 			var rs []string
-			for _, r := range c.Routes {
+			for _, r := range modelRoutes {
 				rs = append(rs, hx(r.Name)+":"+hx(r.Path))
+			}
+			// NewConfig differential (one line per construction step the child performed): the child prints
+			// "NC <step> <addr> <routes> <opts> <result>", the parent adds the case id and the oracle's verdict
+			for _, l := range strings.Split(outS, "\n") {
+				if f := strings.Split(l, "\t"); len(f) == 6 && f[0] == "NC" {
+					var k int
+					fmt.Sscan(f[1], &k)
+					o := 0
+					if k < len(c.Build) {
+						var ps []string
+						for _, r := range c.Build[k].Routes {
+							ps = append(ps, r.Path)
+						}
+						if ok, _ := muxOracle(ps); ok {
+							o = 1
+						}
+					}
+					emitLine("NC\t%s\t%s\t%s\t%s\t%s\t%d\t%s", c.ID, f[1], f[2], f[3], f[4], o, f[5])
+				}
 			}
 			acc, orc := 0, 0
 			if res.Accepted {
@@ -478,51 +682,138 @@ func crashChild() {
 		}
 		return out, nil
 	}
-	addr := c.Addr
-	if addr == "free" {
-		addr = freeAddrs(1)[0]
+	// ---- the configurations to deliver, in order: seq[0] is what Run() starts with, every later one is delivered
+	// by one Reload()
+	type delivered struct {
+		cfg    *httpserver.Config
+		routes []rt
 	}
-	routes, err := mk(c.Routes)
-	if err != nil {
-		outcome("rejected route: %v", err)
-		return
-	}
-	var opts []httpserver.ConfigOption
-	if c.Drain != nil {
-		opts = append(opts, httpserver.WithDrainTimeout(time.Duration(*c.Drain)))
+	var seq []delivered
+	var cfg *httpserver.Config
+	var cfgRoutes []rt
+	if len(c.Build) > 0 {
+		var products []delivered
+		for i, st := range c.Build {
+			a := st.Addr
+			switch {
+			case a == "same" && i > 0:
+				a = products[i-1].cfg.ListenAddr
+			case a == "same" || a == "free":
+				a = freeAddrs(1)[0]
+			}
+			routes, err := mk(st.Routes)
+			if err != nil {
+				outcome("rejected route: %v", err)
+				return
+			}
+			var opts []httpserver.ConfigOption
+			var oe []string
+			for _, o := range st.Opts {
+				oe = append(oe, o.enc())
+				switch o.K {
+				case "drain":
+					opts = append(opts, httpserver.WithDrainTimeout(time.Duration(o.V)))
+				case "read":
+					opts = append(opts, httpserver.WithReadTimeout(time.Duration(o.V)))
+				case "write":
+					opts = append(opts, httpserver.WithWriteTimeout(time.Duration(o.V)))
+				case "idle":
+					opts = append(opts, httpserver.WithIdleTimeout(time.Duration(o.V)))
+				case "copy":
+					opts = append(opts, httpserver.WithConfigCopy(products[o.Ref].cfg))
+				case "copynil":
+					opts = append(opts, httpserver.WithConfigCopy(nil))
+				case "creator":
+					opts = append(opts, httpserver.WithServerCreator(func(ad string, h http.Handler, cf *httpserver.Config) httpserver.HttpServer {
+						return httpserver.DefaultServerCreator(ad, h, cf)
+					}))
+				case "creatornil":
+					opts = append(opts, httpserver.WithServerCreator(nil))
+				case "ctx":
+					opts = append(opts, httpserver.WithRequestContext(context.Background()))
+				case "ctxnil":
+					opts = append(opts, httpserver.WithRequestContext(nil)) //nolint:staticcheck // the nil argument is the case
+				}
+			}
+			p, err := httpserver.NewConfig(a, routes, opts...)
+			res := "rejected"
+			if err == nil && p != nil {
+				sp := cfgSpec{Addr: p.ListenAddr, Drain: int64(p.DrainTimeout), Read: int64(p.ReadTimeout),
+					Write: int64(p.WriteTimeout), Idle: int64(p.IdleTimeout)}
+				// the routes the product really carries (read back through the public field)
+				for k, r := range p.Routes {
+					nm := ""
+					if k < len(st.Routes) {
+						nm = st.Routes[k].Name
+					}
+					sp.Routes = append(sp.Routes, rt{nm, r.Path})
+				}
+				res = sp.enc()
+			}
+			fmt.Printf("NC\t%d\t%s\t%s\t%s\t%s\n", i, hx(a), encRoutes(st.Routes), strings.Join(oe, ","), res)
+			if err != nil {
+				outcome("rejected config: step %d: %v", i, err)
+				return
+			}
+			products = append(products, delivered{p, st.Routes})
+		}
+		last := products[len(products)-1]
+		cfg, cfgRoutes = last.cfg, last.routes
+		if c.Where == "chain" {
+			seq = products
+		}
 	} else {
-		opts = append(opts, httpserver.WithDrainTimeout(2*time.Second))
-	}
-	if c.Read != nil {
-		opts = append(opts, httpserver.WithReadTimeout(time.Duration(*c.Read)))
-	}
-	if c.Write != nil {
-		opts = append(opts, httpserver.WithWriteTimeout(time.Duration(*c.Write)))
-	}
-	if c.Idle != nil {
-		opts = append(opts, httpserver.WithIdleTimeout(time.Duration(*c.Idle)))
-	}
-	cfg, err := httpserver.NewConfig(addr, routes, opts...)
-	if err != nil {
-		outcome("rejected config: %v", err)
-		return
+		addr := c.Addr
+		if addr == "free" {
+			addr = freeAddrs(1)[0]
+		}
+		routes, err := mk(c.Routes)
+		if err != nil {
+			outcome("rejected route: %v", err)
+			return
+		}
+		var opts []httpserver.ConfigOption
+		if c.Drain != nil {
+			opts = append(opts, httpserver.WithDrainTimeout(time.Duration(*c.Drain)))
+		} else {
+			opts = append(opts, httpserver.WithDrainTimeout(2*time.Second))
+		}
+		if c.Read != nil {
+			opts = append(opts, httpserver.WithReadTimeout(time.Duration(*c.Read)))
+		}
+		if c.Write != nil {
+			opts = append(opts, httpserver.WithWriteTimeout(time.Duration(*c.Write)))
+		}
+		if c.Idle != nil {
+			opts = append(opts, httpserver.WithIdleTimeout(time.Duration(*c.Idle)))
+		}
+		cfg, err = httpserver.NewConfig(addr, routes, opts...)
+		if err != nil {
+			outcome("rejected config: %v", err)
+			return
+		}
+		cfgRoutes = c.Routes
 	}
 	fmt.Println("ACCEPTED")
-	var cur atomic.Pointer[httpserver.Config]
-	if c.Where == "construct" {
-		cur.Store(cfg)
-	} else {
-		benign, _ := mk([]rt{{"benign", "/benign"}})
+	switch {
+	case len(seq) > 0:
+	case c.Where == "construct":
+		seq = []delivered{{cfg, cfgRoutes}}
+	default:
+		br := []rt{{"benign", "/benign"}}
+		benign, _ := mk(br)
 		b, err := httpserver.NewConfig(freeAddrs(1)[0], benign, httpserver.WithDrainTimeout(2*time.Second))
 		if err != nil {
 			fmt.Println("harness: benign config rejected", err)
 			os.Exit(3)
 		}
-		cur.Store(b)
+		seq = []delivered{{b, br}, {cfg, cfgRoutes}}
 	}
+	var cur atomic.Pointer[httpserver.Config]
+	cur.Store(seq[0].cfg)
 	var cbMode atomic.Value // "", "nil", "err"
 	cbMode.Store("")
-	runner, err := httpserver.NewRunner(httpserver.WithConfigCallback(func() (*httpserver.Config, error) {
+	ropt := httpserver.WithConfigCallback(func() (*httpserver.Config, error) {
 		switch cbMode.Load().(string) {
 		case "nil":
 			return nil, nil
@@ -530,7 +821,11 @@ func crashChild() {
 			return nil, fmt.Errorf("scripted callback failure")
 		}
 		return cur.Load(), nil
-	}))
+	})
+	if c.Via == "config" {
+		ropt = httpserver.WithConfig(seq[0].cfg)
+	}
+	runner, err := httpserver.NewRunner(ropt)
 	if err != nil {
 		outcome("returned-error NewRunner: %v", err)
 		return
@@ -542,18 +837,18 @@ func crashChild() {
 		outcome("returned-error Run: %v (state %s)", rerr, st)
 		return
 	}
-	request := func(a string) string {
-		if len(c.Routes) == 0 {
+	request := func(d delivered) string {
+		if len(d.routes) == 0 {
 			return "norequest"
 		}
-		m, p := concreteRequest(c.Routes[0].Path)
+		m, p := concreteRequest(d.routes[0].Path)
 		paths := []string{p}
 		if len(c.Paths) > 0 {
 			paths = c.Paths
 		}
 		var res []string
 		for _, p := range paths {
-			u := url.URL{Scheme: "http", Host: a, Path: p}
+			u := url.URL{Scheme: "http", Host: d.cfg.ListenAddr, Path: p}
 			req, err := http.NewRequest(m, u.String(), nil)
 			if err != nil {
 				res = append(res, "badrequest")
@@ -572,23 +867,28 @@ func crashChild() {
 		return strings.Join(res, ",")
 	}
 	reqRes := ""
-	if st == "Running" && c.Where == "construct" {
-		reqRes = request(addr)
+	if st == "Running" && len(seq) == 1 {
+		reqRes = request(seq[0])
 	}
-	if c.Where == "reload" {
-		if st != "Running" {
-			fmt.Println("harness: benign config did not reach Running:", st)
-			os.Exit(3)
-		}
-		cur.Store(cfg)
+	if len(seq) > 1 && st != "Running" && len(c.Build) == 0 {
+		fmt.Println("harness: benign config did not reach Running:", st)
+		os.Exit(3)
+	}
+	st2 := st
+	if len(seq) == 1 {
+		runner.Reload(context.Background()) // construct: the unchanged configuration once more
+		st2 = runner.GetState()
+	}
+	for _, d := range seq[1:] {
+		cur.Store(d.cfg)
 		if c.Kind == "callback" {
 			cbMode.Store(c.Comp)
 		}
-	}
-	runner.Reload(context.Background()) // construct: unchanged config; reload: the case's config
-	st2 := runner.GetState()
-	if st2 == "Running" && c.Where == "reload" {
-		reqRes = request(addr)
+		runner.Reload(context.Background())
+		st2 = runner.GetState()
+		if st2 == "Running" {
+			reqRes = request(d)
+		}
 	}
 	done := make(chan struct{})
 	go func() { runner.Stop(); close(done) }()
